@@ -33,9 +33,13 @@ def _bound():
                      st.floats(0.02, 0.98))
 
 
+STRATA = {'clouds': 1, 'flat': 1, 'lee': 1}
+STRATA_KEY = 'kind'
+
+
 @st.composite
-def _case(draw):
-    kind = draw(st.sampled_from(['clouds', 'flat', 'lee']))
+def _case(draw, kind=None):
+    kind = kind or draw(st.sampled_from(['clouds', 'flat', 'lee']))
     c = {'kind': kind, 'new_path': draw(st.booleans())}
     if kind == 'clouds':
         c['where'] = draw(st.sampled_from(['inside', 'inside', 'on-layer', 'above-top', 'below-bottom']))
@@ -53,8 +57,8 @@ def _case(draw):
     return c
 
 
-def strategy(tier):
-    return _case()
+def strategy(tier, part=None):
+    return _case(part)
 
 
 def bound_value(spec, lo, hi, inside_lo=None):
